@@ -147,6 +147,11 @@ func init() {
 		ruleCompose(concatSpecs(planarMeasureSpecs, planarLengthSpecs), 90),
 	)
 
+	register("C13",
+		"The integer clauses of 'tile arithmetic is a consistent quadtree', decided for every X and Y at each zoom by giving the coordinates a bit-level and a linear symbolic reading: Quadkey interleaves the bits of X and Y and FromQuadkey is its inverse; the four children are the distinct quadrants 2X+dx, 2Y+dy one zoom deeper and Parent/Siblings undo that; Valid is X,Y < 2^zoom; Contains is the ancestor relation; SharedParent is the deepest common ancestor; Range and ChildrenInZoomRange are exactly the descendants. The float clauses (At/Fraction in range, Bound/Center, shared edges) are NOT decided.",
+		ruleCompose(tileSpecs, 60),
+	)
+
 	register("C14",
 		"Structural necessary conditions of 'tile covers contain every tile touched': every member of a multi-geometry/collection contributes (no loop cut after its first member, no skipped prefix) and the line walk visits every segment. The DDA, scan fill and merge arithmetic are NOT decided.",
 		ruleRunOnce(inPkgs("maptile/tilecover."), 15),
